@@ -105,6 +105,14 @@ class Table:
         if isinstance(e, ast.Call) and isinstance(e.func, ast.Name) and e.func.id == "all" and len(e.args) == 1 and isinstance(e.args[0], (ast.List, ast.Tuple)):
             fs = [self.formula(v, env) for v in e.args[0].elts]
             return lambda a: all(f(a) for f in fs)
+        if isinstance(e, ast.Call) and isinstance(e.func, ast.Name) and len(e.args) == 2 and not e.keywords \
+                and e.func.id not in ("isinstance", "issubclass", "zip", "max", "min", "divmod", "getattr", "hasattr"):
+            # both operands handed whole to a helper (`same_registers(op1, op2)`): one atom that stands for whatever the helper compares
+            pfw = _pair_field(e.args[0], e.args[1])
+            import re as _re
+            if pfw is not None and _re.fullmatch(r"@(\[[^\]]*\])*", pfw):
+                k = self.atom(norm(e), f"helper:{e.func.id}")
+                return lambda a: a[k]
         k = self.atom(norm(e))
         return lambda a: a[k]
 
